@@ -1,7 +1,7 @@
 """Leaf models for folding core/ code with ModelEval: Arrays, raw buffers, numbers-like operands."""
 from __future__ import annotations
 
-from ..models import ModelEval, PyObj, Marker, Raised, fold
+from ..models import ModelEval, PyObj, Raised
 from ..peval import Model, Unsupported
 
 ARRAY_Q = "core/array.py::Array"
